@@ -49,11 +49,12 @@ def expected_bitcnt(i, Bb, L):
     return min(L, (i + 1) * Bb) if i * Bb < L else 0
 
 
-def check_emit(c):
+def check_emit(c, obj=None):
     s, M, L = c["scheme"], c["M"], c["L"]
     Bb = R.blocksize(s, c["B"])
     bl = Bb // 8
-    obj = make(c)
+    if obj is None:
+        obj = make(c)
     eq((obj.bitcnt, obj.padcnt, obj.padflag), (0, 0, False), s + ":fresh-counters")
     Leff = 8 * len(M) if L is None else L
     ref = R.pad(s, c["B"], M, L, c.get("w"))
@@ -322,6 +323,11 @@ def check_history(c):
         fed += 8 * len(p)
         eq(obj.bitcnt, fed, "history:bitcnt-after-piece")
         expect(obj.padflag is False, "history:padflag-set-by-continuation")
+    if c.get("reset") == "mid":
+        # the stream is given up: after reset() the object pads the next message like a fresh one
+        guard(obj.reset)
+        check_emit(dict(c, M=last, L=None), obj)
+        return
     it = iter(obj.iterblocks(last))
     while True:
         st_, b = attempt(next, it, None)
@@ -351,6 +357,9 @@ def check_history(c):
     st_, r = attempt(lambda: list(obj.iterblocks(b"y" * bl, padding=False)))
     if st_ == "ok":
         raise Violation("history:continuation-after-final-block-accepted", "an exception", r)
+    if c.get("reset") == "end":
+        guard(obj.reset)
+        check_emit(dict(c, M=last[::-1] + pieces[0][:3], L=None), obj)
 
 
 def history_strategy(tier):
@@ -363,7 +372,8 @@ def history_strategy(tier):
         bl = R.blocksize(c["scheme"], c["B"]) // 8
         piece = gen.pick((1, st.just(0)), (3, gen.uint(1, 3))).flatmap(lambda k: gen.blob(k * bl))
         last = gen.blob_of(gen.pick((1, st.just(0)), (1, st.sampled_from([1, bl - 1, bl, bl + 1])), (2, gen.uint(0, 2 * bl + 3))))
-        return st.builds(lambda ps, l: dict(c, pieces=tuple(ps), last=l), st.lists(piece, min_size=1, max_size=4), last)
+        return st.builds(lambda ps, l, r: dict(c, pieces=tuple(ps), last=l, reset=r), st.lists(piece, min_size=1, max_size=4), last,
+                         st.sampled_from([None, None, "end", "mid"]))
     return cfg.flatmap(with_pieces)
 
 
@@ -391,8 +401,9 @@ FACETS = [
     Facet("continuation-histories", check_history, strategy=history_strategy, budget={"quick": 2500, "thorough": 50000},
           nontrivial=lambda c: len(c["pieces"]) >= 1 and sum(map(len, c["pieces"])) > 0,
           classify=lambda c: (c["scheme"], "has empty piece" if any(len(p) == 0 for p in c["pieces"]) else "no empty piece",
-                              "empty final" if not c["last"] else "non-empty final"),
+                              "empty final" if not c["last"] else "non-empty final", "reset=%s" % c.get("reset")),
           rule="1-4 whole-block pieces (some empty) with padding=False then a final piece: blocks == reference padding of the "
-               "concatenation, bitcnt after every block and piece, further calls refused"),
+               "concatenation, bitcnt after every block and piece, further calls refused; in half of the cases reset() follows (after the "
+               "final block, or instead of it) and the next message must be padded as by a fresh object (all emit checks)"),
 ]
 WEIGHT = {"emit-sweep": 6, "emit-random": 3}
